@@ -368,6 +368,119 @@ def gen_multipin(rng):
     return lines, None, feats
 
 
+PYTHAGOREAN = ['53.13010235415598', '36.86989764584402', '22.61986494804043', '67.38013505195957', '28.07248693585296',
+               '16.26020470831196', '73.73979529168804']     # atan2(4,3), (3,4), (5,12), (12,5), (8,15), (7,24), (24,7)
+
+
+def gen_round3(rng):
+    """round 3 families: transistors / opamps / chips / summing points / SPDT with mirror, invert, flipud, fliplr,
+    mirrorinputs, kind, scale, size; implicit nodes (ground, sground, vcc, ...); rotation by angles that are not multiples
+    of 90 degrees (Pythagorean angles: rational cos / sin).  Pins carry dangling branches in random directions (a tree of
+    constraints is always consistent); the witness is the model's own longest-path layout."""
+    t = rng.choice(['transistor', 'transistor', 'opamp', 'chip', 'sp', 'spdt', 'oneport-flip', 'implicit', 'implicit', 'rotate', 'rotate', 'sizes'])
+    s = lambda *c: dec(rng.choice(c))   # noqa
+    dirs = list(DIRS)
+    feats = {'fixed': True, 'free': False, 'offset': False, 'outside': False, 'cycle': False, 'multi_pin': True, 'template': 'r3-' + t}
+
+    def flags(*names):
+        return ''.join(', ' + n for n in names if rng.random() < 0.4)
+
+    def branches(pins, lines, p_each=0.7):
+        k = 0
+        for p in pins:
+            if rng.random() < p_each:
+                k += 1
+                cpt = rng.choice(['W', 'R', 'W', 'C'])
+                lines.append('%s%d %s n%d; %s=%s' % (cpt, k, p, k, rng.choice(dirs), s(0.5, 1, 1.5)))
+                if rng.random() < 0.3:
+                    k += 1
+                    lines.append('W%d n%d n%d; %s=%s' % (k, k - 1, k, rng.choice(dirs), s(0.5, 1)))
+    if t == 'transistor':
+        typ, kws, kinds = rng.choice([('Q', ['', ' pnp', ' npn'], ['', '', 'pnp', 'nigbt', 'pigbt']),
+                                      ('M', ['', ' pmos', ' nmos'], ['', '', 'pmos', 'nfet', 'pfetd', 'pigfetd', 'nigfete', 'hemt', 'pigfetebulk']),
+                                      ('J', ['', ' pjf', ' njf'], ['', ''])])
+        hint = rng.choice(dirs) + rng.choice(['', '', '=2', '=1.5', '=0.5']) + flags('mirror', 'invert')
+        kd = rng.choice(kinds)
+        if kd:
+            hint += ', kind=' + kd
+        if rng.random() < 0.3:
+            hint += ', scale=' + s(0.5, 2, 1.5)
+        lines = ['%s1 1 2 3%s; %s' % (typ, rng.choice(kws), hint)]
+        branches(['1', '2', '3'], lines, 0.8)
+    elif t == 'opamp':
+        hint = rng.choice(dirs) + rng.choice(['', '', '=2', '=1.5']) + flags('mirror', 'mirrorinputs')
+        if rng.random() < 0.3:
+            hint += ', scale=' + s(0.5, 2)
+        if rng.random() < 0.7:
+            lines = ['E1 o 0 opamp p m 1000; ' + hint]
+            branches(['o', 'p', 'm'], lines, 0.8)
+        else:
+            lines = ['E1 a b fdopamp c d e; ' + hint]
+            branches(['a', 'b', 'c', 'd', 'e'], lines, 0.6)
+    elif t == 'chip':
+        kind, pins = rng.choice([('chip2121', ['l1', 'l2', 'r1', 'r2', 'b1', 't1']), ('chip1313', ['l1', 'r1', 'b1', 'b2', 'b3', 't1', 't2', 't3']),
+                                 ('chip3131', ['l1', 'l2', 'l3', 'r1', 'r2', 'r3', 'b1', 't1']), ('chip2222', ['l1', 'l2', 'r1', 'r2', 'b1', 'b2', 't1', 't2']),
+                                 ('box4', ['w', 'e', 'n', 's']), ('mux21', ['l1', 'l2', 'b', 'r'])])
+        lines = ['U1 %s; %s%s%s' % (kind, rng.choice(dirs), rng.choice(['', '=2', '=3', '=2.5']), flags('mirror', 'invert', 'flipud', 'fliplr'))]
+        branches(['U1.' + p for p in rng.sample(pins, rng.randint(2, min(4, len(pins))))], lines, 1.0)
+    elif t == 'sp':
+        kw, n = rng.choice([('pp', 3), ('pm', 3), ('ppp', 4), ('pmm', 4), ('ppm', 4)])
+        lines = ['SP1 %s %s; %s%s%s' % (kw, ' '.join(str(i) for i in range(1, n + 1)), rng.choice(dirs), rng.choice(['', '=2']), flags('mirror'))]
+        branches([str(i) for i in range(1, n + 1)], lines, 0.7)
+    elif t == 'spdt':
+        lines = ['SW1 1 2 3 spdt; %s%s%s' % (rng.choice(dirs), rng.choice(['', '=2']), flags('mirror', 'invert'))]
+        branches(['1', '2', '3'], lines, 0.8)
+    elif t == 'oneport-flip':
+        lines = []
+        for i in range(rng.randint(2, 4)):
+            lines.append('%s%d %d %d; %s=%s%s' % (rng.choice(['R', 'C', 'L', 'D', 'V']), i + 1, i + 1, i + 2, rng.choice(dirs), s(0.5, 1, 2),
+                                                   flags('mirror', 'invert', 'flipud', 'fliplr')))
+        feats['multi_pin'] = False
+    elif t == 'implicit':
+        gk = rng.choice(['ground', 'sground', 'rground', 'cground', 'implicit', '0V', 'nground', 'pground', 'tlground', 'eground'])
+        form = rng.choice(['two-grounds', 'three-shared', 'supply', 'connection'])
+        if form == 'two-grounds':
+            lines = ['V1 1 0_1; down', 'R1 1 2; right=%s' % s(1, 2), 'C1 2 0_2; down',
+                     'W 0_1 0; down=%s, %s' % (s(0.25, 0.5), gk), 'W 0_2 0; down=%s, %s' % (s(0.25, 0.5), gk)]
+        elif form == 'three-shared':
+            lines = ['R1 1 0; down=%s, %s' % (s(1, 1.5), gk), 'R2 2 0; down, %s' % gk, 'W 1 2; right=%s' % s(1, 2), 'C1 2 3; right',
+                     'L1 3 0; down=2, %s' % rng.choice([gk, 'sground'])]
+        elif form == 'supply':
+            pk, nk = rng.choice([('vcc', 'vee'), ('vdd', 'vss')])
+            lines = ['W 5 1; down=%s, %s' % (s(0.25, 0.5), pk), 'R1 1 2; down', 'R2 2 3; down', 'W 3 6; down=%s, %s' % (s(0.25, 0.5), nk),
+                     'W 2 4; right', 'W 7 1; down=0.5, %s' % pk]
+        else:
+            ck = rng.choice(['input', 'output', 'bidir', 'pad'])
+            lines = ['R1 1 2; right', 'W 2 3; right=%s, %s' % (s(0.5, 1), ck), 'C1 2 4; down', 'W 4 0; down=0.25, %s' % gk, 'W 5 1; right=0.5']
+        feats['multi_pin'] = False
+    elif t == 'rotate':
+        a = rng.choice(PYTHAGOREAN)
+        q = rng.choice([0, 90, 180, -90, -180])
+        ang = dec(Fraction(a) + q) if False else repr(float(a) + q) if q else a
+        # keep the textual angle exact: quadrant shifts are expressed with a direction keyword instead of arithmetic on the text
+        base = rng.choice(['', 'right', 'up', 'left', 'down'])
+        hint = (base + ', ' if base else '') + 'rotate=%s%s, size=%s' % (rng.choice(['', '-']), a, s(1, 2, 2.5))
+        form = rng.choice(['dangling', 'triangle', 'chip'])
+        if form == 'dangling':
+            lines = ['R1 1 2; right', 'C1 2 3; ' + hint, 'W 3 4; %s=%s' % (rng.choice(dirs), s(0.5, 1))]
+            feats['multi_pin'] = False
+        elif form == 'triangle':
+            # a rotated component closed by a horizontal and a vertical wire chain: the legs stretch as needed
+            lines = ['R1 1 2; ' + hint, 'W 1 3; %s=%s' % (rng.choice(dirs), s(0.5, 1)), 'W 2 4; %s=%s' % (rng.choice(dirs), s(0.5, 1))]
+            feats['multi_pin'] = False
+        else:
+            lines = ['U1 chip2121; rotate=%s, size=2' % a]
+            branches(['U1.l1', 'U1.r1', 'U1.t1'], lines, 1.0)
+    else:
+        # sizes: size=, scale=, direction=size on fixed-size shapes and stretchy two-ports
+        lines = ['TF1 a b c d; right%s%s' % (rng.choice(['', '=2', '=1.5']), rng.choice(['', ', scale=2', ', scale=0.5'])),
+                 'W a e; right=%s' % s(0.5, 1), 'W c f; left=%s' % s(0.5, 1)]
+        if rng.random() < 0.5:
+            lines = ['TL1 a b c d; right%s' % rng.choice(['', '=2', '=3', ', size=1.5']), 'W a e; right=%s' % s(0.5, 1), 'W c f; left=%s' % s(0.5, 1),
+                     'W b g; down=0.5']
+    return lines, None, feats
+
+
 def gen_fixed_branch(rng, direction, reverse, two_fixed):
     """a fixed component in the interior of a branch that has to stretch: a longer parallel branch with an intermediate
     node sets the separation of the branch ends.  All four directions, both listing orders, random node order of each
@@ -520,6 +633,9 @@ def run(chk, replay=None):
                 f.write(text)
     chk.coverage['translator'] = {'status': 'ok', 'classes': len(info['classes']), 'unparsed': info['unparsed'],
                                   'rotation_table_keys': info['rot_keys'], 'rotation_normalised': info['rot_normalise']}
+    if info['unparsed']:
+        # a class attribute / `pins` property / Cpt.R / implicit-key list the translator cannot follow: the tie is broken
+        chk.unexplained('broken-correspondence', 'translator:tx_layout', {'unparsed': info['unparsed'][:10]})
     global TABLE_ANGLES, TABLE_NORMALISE
     TABLE_ANGLES = set(info['rot_keys'])
     TABLE_NORMALISE = bool(info['rot_normalise'])
@@ -547,7 +663,7 @@ def run(chk, replay=None):
     unjudged = 0
 
     def req(cmd, k, lines):
-        return '%s %s | %s' % (cmd, fstr(k), ' | '.join(' '.join(l.split()) for l in lines))
+        return cmd + ' ' + c20_placer.request(k, lines)
 
     def pos_str(pos):
         return ' '.join('%s=%s,%s' % (n, fstr(x), fstr(y)) for n, (x, y) in pos.items())
@@ -571,6 +687,13 @@ def run(chk, replay=None):
         else:
             for me, re_ in zip(model_elts, real['elts']):
                 cls, nodes, ang, size, st, skip, tc = re_
+                # an angle that is not a short decimal (rotate=53.13010235415598): the model keeps the exact decimal text
+                if len(me) > 2 and me[2] != fstr(ang):
+                    try:
+                        if abs(float(Fraction(me[2])) - float(ang)) < 1e-6:
+                            ang = Fraction(me[2])
+                    except (ValueError, ZeroDivisionError):
+                        pass
                 if nodes is None:
                     exp = [cls, '', fstr(ang), fstr(size), 's' if st else 'f', 'skip', '']
                 else:
@@ -759,6 +882,7 @@ def run(chk, replay=None):
     n_grid = 80 if quick else 1500
     n_multi = 30 if quick else 400
     n_net = 30 if quick else 300
+    n_r3 = 60 if quick else 900
     for i in range(n_grid):
         lines, truth, feats = gen_grid(rng, allow_outside=(i % 7 == 6), fixed_p=0.15 if i % 3 else 0.0,
                                        offset_p=0.25 if i % 5 == 4 else 0.0)
@@ -776,6 +900,10 @@ def run(chk, replay=None):
     for i in range(n_multi):
         lines, truth, feats = gen_multipin(rng)
         one_case(lines, rng.choice(spacings), truth, feats, 'multipin:' + feats['template'])
+    for i in range(n_r3):
+        lines, truth, feats = gen_round3(rng)
+        one_case(lines, rng.choice(spacings), truth, feats, feats['template'],
+                 {'scale': rng.choice([0.5, 2]), 'cpt_size': rng.choice([1, 2])} if i % 6 == 5 else None)
     for i in range(n_net):
         g = gen_network(rng, L)
         if g is None:
